@@ -320,7 +320,27 @@ def cmp_life(prop, case, impl, model):
             out.append(('disagree', 'life:model-goroutines:' + scen, model.get('goroutines')))
     return out
 
+def cmp_pools(prop, case, impl, model):
+    if 'PANIC' in impl:
+        return [('violation', 'pools:panic', impl['PANIC'][:300])]
+    if 'dialerr' in impl or 'modelerror' in model:
+        return [('disagree', 'pools:setup', str(impl.get('dialerr')) + ' ' + str(model.get('modelerror'))[:300])]
+    out = []
+    for k, o in enumerate((impl.get('obs') or '-').split(',')):
+        f = o.split(':')
+        if len(f) == 4 and f[2] == 'false':
+            out.append(('violation', 'pools:foreign-bytes', 'read %d on connection %s returned %s bytes that are not bytes of that connection' % (k, f[0], f[1])))
+            break
+        if len(f) == 4 and f[3] == 'eof' and False:
+            pass
+    if model.get('replay') != 'ok':
+        r = model.get('replay', '?')
+        kind = 'violation' if ('not-held' in r or 'somebody-holds' in r or 'non-holder' in r) else 'disagree'
+        out.append((kind, 'pools:' + re.sub(r'\d+', 'N', r), 'pool trace replayed in the ownership model: ' + r))
+    return out
+
 COMPARE = {
+    'pools': cmp_pools,
     'life': cmp_life,
     'netconn': cmp_netconn,
     'wsjson': cmp_wsjson,
@@ -344,6 +364,8 @@ def nontrivial(suite, case, impl):
         return case.get('ops', '').count('R') > 1 and len(case.get('stream', '')) > 16
     if suite in ('pair', 'hs-accept', 'hs-dial', 'sched', 'wsjson', 'life'):
         return True
+    if suite == 'pools':
+        return case.get('hist', '').count('msg:') >= 2
     if suite == 'netconn':
         return case.get('kind') != 'stream' or ',' in case.get('writes', '')
     if suite == 'wire-out':
@@ -417,6 +439,22 @@ PROPS = {
                    'model delivery = library delivery on every case; judge: received = written.',
         level_note='C01_roundtrip_uncompressed is the end-to-end theorem for uncompressed messages; compressed round trips rest on the flate oracle and are checked case by case by running the extracted Writer∘Reader composition.',
         technique='Coq proofs (induction over chunk lists / buffer loop) + differential run of extracted Writer∘Reader vs two library endpoints',
+    ),
+    'C07': dict(
+        suites=['pools'],
+        rule='pools suite: sequential histories over 2-3 server connections sharing the library\'s pools under GOMAXPROCS(1) (sync.Pool then hands a returned object straight to the next Get): open (takeover / no takeover), '
+             'compressed and plain messages of 40..40000 bytes tagged with their connection, partial reads, read to the end, reading AGAIN after the end, abandoning a message, a Close frame after the first '
+             'fragment of a compressed message, CloseNow and a read on the abandoned reader afterwards; plus the two historical witnesses. The pool hooks record Get / Put / Use of every flate reader per connection. '
+             'Judge: every byte returned by a read carries its own connection\'s tag. Tie: the observed Get/Put/Use events drive Model/Pools.v (a Get of a held object, a Put by a non-holder or a Use of an object not held '
+             'is a violation). non-trivial = histories with >= 2 messages; distinct = distinct case line',
+        trusted=COMMON_TRUSTED + ['Model/Pools.v abstracts data to object ownership (which connection holds which pooled flate reader and what its limitReader points to); flate/bufio objects deliver bytes of the source they were last Reset onto (assumed)',
+                                  'only the flate reader pool is hooked; bufio readers/writers, flate writers, sliding windows and the wsjson buffer pool are covered by the byte-tag judge only'],
+        assumptions=['sync.Pool returns a pooled object or none (any choice); GOMAXPROCS(1) makes reuse reproducible in the suite'],
+        not_covered=['concurrent (multi-goroutine) interleavings of pool use across connections: sequential histories only; race detector in the thorough tier of C05'],
+        level_text='Theorem pools_isolated: for every history of any number of connections (read again after end of message, abandon, close at any moment incl. from underneath a Read, reuse by new connections) every use of a pooled '
+                   'flate reader happens while the using connection — and no other — holds it, and it is not in the pool. Tie: hook-recorded Get/Put/Use events replayed in the model; judge: no foreign byte in any read.',
+        level_note='ownership model of the flate reader; other pools by the judge only.',
+        technique='Coq proof (6-part ownership invariant over arbitrary histories) + replay of hook-recorded pool events + connection-tagged payloads',
     ),
     'C11': dict(
         suites=['hs-accept'],
